@@ -881,7 +881,7 @@ fn gen_hasher(g: &mut Sm, kind: &FKind) -> SimHasher {
 
 pub fn gen_kind(g: &mut Sm, which: u8, realistic: bool) -> FKind {
     match which {
-        0 => FKind::Bloom { m: if realistic { g.range(256, 8192) as usize } else { g.range(1, 64) as usize }, k: g.below(5) as usize },
+        0 => FKind::Bloom { m: if realistic { if g.chance(1, 3) { *g.pick(&[65_535usize, 65_536, 65_537, 100_003, 1 << 20]) } else { g.range(256, 8192) as usize } } else { g.range(1, 64) as usize }, k: g.below(5) as usize },
         1 => {
             if realistic {
                 FKind::Cuckoo { bucketsize: *g.pick(&[2, 4, 8]), n_buckets: 1 << g.range(4, 10), l_fp: *g.pick(&[8, 12, 16, 32, 64]) }
